@@ -365,6 +365,7 @@ BASE_NS = {
     "bval": lambda X, i, j: _coerce_batch(X)[int(i)][int(j)],
     "seq_mean": _seq_mean, "seq_std": _seq_std,
     "pow2": lambda k: 2 ** int(k),
+    "has_key": lambda m, k: k in m,
     "fresh": lambda v: True,        # ownership is checked by the aliasing probes of the bounded tier (b_C15)
     "vsum": lambda xs: sum(_scalar(np.asarray(x)) for x in xs),
     "asum": lambda xs, lo, hi: sum(_scalar(np.asarray(x)) for x in list(xs)[int(lo):int(hi)]),
